@@ -324,187 +324,6 @@ func isSourceField(info *types.Info, e ast.Expr) bool {
 }
 
 // sender: the `hset` sends of sendTargetCommand.
-func (st *state) sender() {
-	c := st.c
-	fn := c.Func(pkgSync, "DbSyncer", "sendTargetCommand")
-	if fn == nil {
-		return
-	}
-	info := fn.Pkg.TypesInfo
-	// every command queued on the target connection by sendTargetCommand, its closures and the
-	// same-package helpers it calls (arguments in the vocabulary of the frame that supplies them)
-	seen := map[token.Pos]bool{}
-	collectSends(c, info, fn.Decl.Body, &frame{root: fn.Decl.Body}, 3, map[ast.Node]bool{}, func(pos token.Pos, args []ast.Expr, fr *frame) {
-		if len(args) != 4 || seen[pos] {
-			return
-		}
-		seen[pos] = true
-		cmd, _ := resolveF(info, fr, args[0], 4)
-		if s, ok := core.StringConst(info, cmd); !ok || !strings.EqualFold(s, "hset") {
-			return
-		}
-		role := ""
-		val, vfr := resolveF(info, fr, args[3], 6)
-		val = ast.Unparen(val)
-		switch {
-		case core.IsFieldNamed(info, val, "DbSyncer", "runId"):
-			role = "runid"
-		case isSel(val, "CurrentVersion") && strings.HasSuffix(core.NamedTypePath(info.TypeOf(val.(*ast.SelectorExpr).X)), pkgUtils+".Checkpoint"):
-			role = "version"
-		case isSel(val, "Offset"):
-			role = "offset"
-		default:
-			for _, d := range tt.DefsOf(info, vfr.root, core.ObjOf(info, val)) {
-				if d.Rhs != nil && isSel(ast.Unparen(d.Rhs), "Offset") {
-					role = "offset"
-				}
-			}
-		}
-		if role == "" {
-			c.Undecidedf("R1.writer", "sendTargetCommand/"+c.Src(args[2]), pos, "cannot tell which checkpoint value `%s` is", c.Src(val))
-			return
-		}
-		f := evalNameF(info, fr, args[2], 4)
-		hs := f.holes()
-		if len(hs) != 1 || len(f) != 2 || f[0].hole == nil {
-			c.Undecidedf("R1.writer", "sendTargetCommand/"+role, pos, "field name `%s` does not evaluate to '<source>-<constant>'", c.Src(args[2]))
-			return
-		}
-		st.writer[role] = f
-		c.Check("R1.writer", "sendTargetCommand/"+role, pos, isSourceField(info, hs[0]),
-			fmt.Sprintf("the %s is stored under %q with <addr> = the syncer's source address (%s)", role, f, c.Src(hs[0])))
-	})
-	// distinct names
-	names := map[string]string{}
-	for _, r := range roles {
-		if f, ok := st.writer[r]; ok {
-			if other, dup := names[f.String()]; dup {
-				c.Failf("R1.writer", "sendTargetCommand/distinct", fn.Decl.Pos(), "%s and %s are stored under the same field %q: one overwrites the other and is read back as the other", other, r, f)
-			}
-			names[f.String()] = r
-		}
-	}
-}
-
-// funcBody returns parameters and body of the function a call invokes when that is a
-// same-package function/method or a function literal bound once to a local of the frame.
-func funcBody(c *core.Ctx, info *types.Info, fr *frame, call *ast.CallExpr) (params *ast.FieldList, recv *ast.FieldList, body *ast.BlockStmt, closure bool) {
-	if lit, ok := ast.Unparen(call.Fun).(*ast.FuncLit); ok {
-		return lit.Type.Params, nil, lit.Body, true
-	}
-	if id, ok := ast.Unparen(call.Fun).(*ast.Ident); ok {
-		if r, _ := resolveF(info, fr, id, 3); r != ast.Expr(id) {
-			if lit, ok := ast.Unparen(r).(*ast.FuncLit); ok {
-				return lit.Type.Params, nil, lit.Body, true
-			}
-		}
-	}
-	if h := c.FnOf(core.CalleeFunc(info, call)); h != nil && h.Decl.Body != nil && h.Pkg.TypesInfo == info {
-		return h.Decl.Type.Params, h.Decl.Recv, h.Decl.Body, false
-	}
-	return nil, nil, nil, false
-}
-
-func paramObjs(info *types.Info, params *ast.FieldList) (objs []types.Object, variadic bool) {
-	for _, fl := range params.List {
-		if _, v := fl.Type.(*ast.Ellipsis); v {
-			variadic = true
-		}
-		for _, n := range fl.Names {
-			objs = append(objs, info.Defs[n])
-		}
-		if len(fl.Names) == 0 {
-			objs = append(objs, nil)
-		}
-	}
-	return
-}
-
-// collectSends reports every <conn>.Send(cmd, args...) executed in region: direct calls, calls of
-// a forwarder (function, method or local closure whose body hands its own `cmd, args...`
-// parameters to Send) and, through parameter binding, the sends of same-package helpers.
-func collectSends(c *core.Ctx, info *types.Info, region ast.Node, fr *frame, depth int, onStack map[ast.Node]bool, emit func(token.Pos, []ast.Expr, *frame)) {
-	ast.Inspect(region, func(n ast.Node) bool {
-		if _, isLit := n.(*ast.FuncLit); isLit {
-			return false // a closure is followed where it is called
-		}
-		call, ok := n.(*ast.CallExpr)
-		if !ok {
-			return true
-		}
-		if callee := core.Callee(info, call); callee != nil && callee.Name() == "Send" {
-			if _, isFunc := callee.(*types.Func); isFunc && !call.Ellipsis.IsValid() {
-				emit(call.Pos(), call.Args, fr)
-			}
-			return true
-		}
-		params, recv, body, closure := funcBody(c, info, fr, call)
-		if body == nil || onStack[body] || depth == 0 {
-			return true
-		}
-		objs, variadic := paramObjs(info, params)
-		if variadic {
-			// a forwarder: its body sends exactly its own (cmd, rest...) parameters
-			if k := forwards(info, objs, body); k >= 0 && !call.Ellipsis.IsValid() && k < len(call.Args) {
-				emit(call.Pos(), call.Args[k:], fr)
-			}
-			return true
-		}
-		if len(objs) != len(call.Args) || call.Ellipsis.IsValid() {
-			return true
-		}
-		bind := map[types.Object]ast.Expr{}
-		for i, o := range objs {
-			if o != nil {
-				bind[o] = call.Args[i]
-			}
-		}
-		if recv != nil && len(recv.List) == 1 && len(recv.List[0].Names) == 1 {
-			if sel, ok := ast.Unparen(call.Fun).(*ast.SelectorExpr); ok {
-				bind[info.Defs[recv.List[0].Names[0]]] = sel.X
-			}
-		}
-		onStack[body] = true
-		root := ast.Node(body)
-		if closure {
-			root = fr.root // free variables of a closure are locals of the frame that defines it
-		}
-		collectSends(c, info, body, &frame{root: root, bind: bind, up: fr, closure: closure}, depth-1, onStack, emit)
-		delete(onStack, body)
-		return true
-	})
-}
-
-// forwards: body contains `<conn>.Send(p_k, p_last...)` with p_k the parameter just before the
-// variadic one; returns k.
-func forwards(info *types.Info, params []types.Object, body *ast.BlockStmt) int {
-	idx := -1
-	ast.Inspect(body, func(n ast.Node) bool {
-		call, ok := n.(*ast.CallExpr)
-		if !ok {
-			return true
-		}
-		if callee := core.Callee(info, call); callee == nil || callee.Name() != "Send" {
-			return true
-		}
-		if len(call.Args) != 2 || !call.Ellipsis.IsValid() || len(params) < 2 {
-			idx = -2
-			return true
-		}
-		a, b := core.ObjOf(info, call.Args[0]), core.ObjOf(info, call.Args[1])
-		if a != nil && a == params[len(params)-2] && b == params[len(params)-1] && idx != -2 {
-			idx = len(params) - 2
-		} else {
-			idx = -2
-		}
-		return true
-	})
-	if idx < 0 {
-		return -1
-	}
-	return idx
-}
-
 func isSel(e ast.Expr, name string) bool {
 	s, ok := e.(*ast.SelectorExpr)
 	return ok && s.Sel.Name == name
